@@ -123,6 +123,9 @@ func checkC01(c *Ctx) {
 
 	// ---- R8 platform suffixes
 	checkPlatformSuffixes(c, "C01.R8.file-suffixes", gen)
+	checkStreamingFlag(c, gen)
+	c.Rule("C01.R10.conditional-decls", "an identifier of the generated code whose declarations are all conditional is used only under conditions that imply one of them", 5)
+	checkConditionalDecls(c, "C01.R10.conditional-decls", ev, []string{"serverMain", "serverServer", "serverBuilder", "serverConfigureapi", "serverOperation", "serverParameter", "serverResponses", "clientClient", "clientFacade", "clientParameter", "clientResponse", "cliMain", "cliCli"})
 
 	// ---- R9 code swallowed by a comment
 	c.Rule("C01.R9.commented-code", "no template text holding Go statement tokens (`:=`, `err != nil`, `if err`, `func (`, `); err`) is lexed inside a comment in any instantiation (whitespace trimming that glues code onto a comment line)", 1)
@@ -628,4 +631,61 @@ func goKnownOSArch() []string {
 	}
 	sort.Strings(out)
 	return out
+}
+
+// checkStreamingFlag: the client reader declares its `writer` field under .HasStreamingResponse
+// and uses it for every response whose schema is a stream; the Go side must therefore raise the
+// flag when any response — default, success or any other status code — streams.
+func checkStreamingFlag(c *Ctx, gen *packages.Package) {
+	rule := "C01.R11.streaming-flag"
+	c.Rule(rule, "HasStreamingResponse is raised from the default response, the success responses and every status-code response", 3)
+	fd := load.FuncDecl(gen, "codeGenOpBuilder.MakeOperation")
+	if fd == nil {
+		c.Anchor(rule, "generator.codeGenOpBuilder.MakeOperation", "not found")
+		return
+	}
+	info := gen.TypesInfo
+	// the local that feeds GenOperation.HasStreamingResponse
+	var flag types.Object
+	ast.Inspect(fd.Body, func(n ast.Node) bool {
+		if kv, ok := n.(*ast.KeyValueExpr); ok && goan.IsIdent(kv.Key, "HasStreamingResponse") {
+			if id, ok := ast.Unparen(kv.Value).(*ast.Ident); ok {
+				flag = info.Uses[id]
+			}
+		}
+		return true
+	})
+	if flag == nil {
+		c.Anchor(rule, "generator.codeGenOpBuilder.MakeOperation › HasStreamingResponse", "the field is not fed from a local")
+		return
+	}
+	sources := map[string]bool{}
+	goan.WalkGuards(info, fd.Body, func(n ast.Node, guards []goan.Lit, loops []ast.Stmt) {
+		as, ok := n.(*ast.AssignStmt)
+		if !ok || len(as.Lhs) != 1 || !identIs(info, as.Lhs[0], flag) || !goan.IsIdent(as.Rhs[0], "true") {
+			return
+		}
+		note := func(e ast.Node) {
+			ast.Inspect(e, func(m ast.Node) bool {
+				if id, ok := m.(*ast.Ident); ok {
+					if v, ok := info.Uses[id].(*types.Var); ok && !v.IsField() {
+						sources[id.Name] = true
+					}
+				}
+				return true
+			})
+		}
+		for _, g := range guards {
+			note(g.E)
+		}
+		for _, lp := range loops {
+			if rs, ok := lp.(*ast.RangeStmt); ok {
+				note(rs.X)
+			}
+		}
+	})
+	for _, want := range []struct{ name, what string }{{"defaultResponse", "the default response"}, {"successResponses", "the success responses"}, {"responses", "every status-code response"}} {
+		c.Check(sources[want.name], rule, "generator.codeGenOpBuilder.MakeOperation › HasStreamingResponse considers "+want.what, c.posOf(gen, fd.Pos()), "raised under a test of "+want.name,
+			"HasStreamingResponse is never raised from "+want.what+": a streamed ("+"type: file) response of that kind makes the generated client reader use a `writer` field that its struct does not declare — the client does not compile")
+	}
 }
